@@ -42,6 +42,67 @@ def run(ctx, obs):
     resampled_factor_counts(ctx, obs)
     variance_model_axis(ctx, obs)
     model_axis(ctx, obs)
+    bootstrap_p_range(ctx, obs)
+
+
+def bootstrap_p_range(ctx, obs, rule='P-RANGE'):
+    """Bootstrap p-values are proportions `(count + k) / (N + m)`: count = number of resamples satisfying a comparison (a boolean
+    array summed over axis 0), N = number of resamples (`x.shape[0]` / `len(x)`).  count ranges over 0..N, so the quotient stays
+    in [0, 1] iff 0 <= k <= m; `(count + 1) / N` reaches (N + 1) / N > 1 when every resample satisfies the comparison."""
+    prog = ctx.prog
+    n = 0
+
+    def const(e):
+        return e.value if isinstance(e, ast.Constant) and isinstance(e.value, (int, float)) and not isinstance(e.value, bool) else None
+
+    def count_plus(e):
+        """e = C or C + k  (C = <comparison>.sum(axis=0) / np.sum(<comparison>, axis=0) / count_nonzero) -> k, else None"""
+        def is_count(c):
+            if not isinstance(c, ast.Call) or _leaf(c.func) not in ('sum', 'count_nonzero', 'nansum'):
+                return False
+            is_np = isinstance(c.func, ast.Attribute) and isinstance(c.func.value, ast.Name) and c.func.value.id in ('np', 'numpy')
+            operand = (c.args[0] if c.args else None) if is_np else (c.func.value if isinstance(c.func, ast.Attribute) else None)
+            return isinstance(operand, ast.Compare)
+        if is_count(e):
+            return 0
+        if isinstance(e, ast.BinOp) and isinstance(e.op, ast.Add):
+            if is_count(e.left) and const(e.right) is not None:
+                return const(e.right)
+            if is_count(e.right) and const(e.left) is not None:
+                return const(e.left)
+        return None
+
+    def size_plus(e):
+        def is_size(x):
+            return (isinstance(x, ast.Subscript) and isinstance(x.value, ast.Attribute) and x.value.attr == 'shape'
+                    and isinstance(x.slice, ast.Constant) and x.slice.value == 0) or \
+                   (isinstance(x, ast.Call) and isinstance(x.func, ast.Name) and x.func.id == 'len')
+        if is_size(e):
+            return 0
+        if isinstance(e, ast.BinOp) and isinstance(e.op, ast.Add):
+            if is_size(e.left) and const(e.right) is not None:
+                return const(e.right)
+            if is_size(e.right) and const(e.left) is not None:
+                return const(e.left)
+        return None
+
+    for q, f in sorted(prog.functions.items()):
+        if not q.startswith(U) and not q.startswith('inference.result.'):
+            continue
+        for e in ast.walk(f.node):
+            if isinstance(e, ast.BinOp) and isinstance(e.op, ast.Div):
+                k, m = count_plus(e.left), size_plus(e.right)
+                if k is None or m is None:
+                    continue
+                n += 1
+                con = 'a bootstrap p-value (count + k) / (N + m) stays in [0, 1]'
+                if 0 <= k <= m:
+                    obs.ok(rule, q, con, f'`{norm(e)[:70]}`: k={k}, m={m}', where(prog, f, e))
+                else:
+                    obs.bad(rule, q, con, f'`{norm(e)[:80]}`: k={k}, m={m} - when every resample satisfies the comparison the value is '
+                            f'(N + {k}) / (N + {m}) > 1', where(prog, f, e))
+    if n == 0:
+        obs.unk(rule, U + 'zero_tests', 'bootstrap proportions', 'no (count + k) / (N + m) expression recognised')
 
 
 def model_axis(ctx, obs, rule='MODEL-AXIS'):
